@@ -77,3 +77,16 @@ class CandidateTap(Extension):
                           "shift": int(m.query.shift), "nq": len(m.query.positions),
                           "index": int(m.index), "row": row_summary(m.alignment)})
         BUFFER.append({"task": list(CURRENT), "cands": cands})
+
+
+class Bomb(Extension):
+    """Fault for prelude runs: raises inside the worker while it runs task number `at` (any round), which aborts that
+    run in the middle of a map - and, as with pathos, leaves its pool cached."""
+    messageType = MultipleAlignmentResultRowsMessage
+
+    def __init__(self, at):
+        self.at = at
+
+    def handle(self, message):
+        if CURRENT[1] == self.at:
+            raise RuntimeError("injected task failure")
